@@ -399,6 +399,31 @@ func (r *roBS) Keys() ([]cid.Cid, error, bool) {
 	}
 	return out, asyncErr, true
 }
+
+// keysOverlapping: a second listing is requested and drained while the first one is one key in
+func (r *roBS) keysOverlapping() ([]cid.Cid, []cid.Cid, error) {
+	ch1, err := r.b.AllKeysChan(bg)
+	if err != nil {
+		return nil, nil, err
+	}
+	var k1, k2 []cid.Cid
+	if c, ok := <-ch1; ok {
+		k1 = append(k1, c)
+	}
+	ch2, err := r.b.AllKeysChan(bg)
+	if err != nil {
+		for range ch1 {
+		}
+		return nil, nil, err
+	}
+	for c := range ch2 {
+		k2 = append(k2, c)
+	}
+	for c := range ch1 {
+		k1 = append(k1, c)
+	}
+	return k1, k2, nil
+}
 func (r *roBS) Roots() ([]cid.Cid, error) { return r.b.Roots() }
 func (r *roBS) Close()                    { r.b.Close() }
 
@@ -597,6 +622,15 @@ func checkRoFront(c *acCase, f roFront, ans map[string]struct {
 			}
 			if !keys[i].Equals(want) {
 				return fmt.Sprintf("AllKeysChan key %d = %s, scan order says %s (%s)", i, keys[i], want, s.B)
+			}
+		}
+		if rb, ok := f.(*roBS); ok && len(keys) >= 2 {
+			k1, k2, err := rb.keysOverlapping()
+			if err != nil {
+				return "overlapping AllKeysChan failed: " + err.Error()
+			}
+			if fmt.Sprint(k1) != fmt.Sprint(keys) || fmt.Sprint(k2) != fmt.Sprint(keys) {
+				return fmt.Sprintf("two overlapping key listings returned %d and %d keys, a single listing %d: listings are not independent", len(k1), len(k2), len(keys))
 			}
 		}
 	}
@@ -1034,6 +1068,17 @@ func runScanCase(x *acCtx, c *acCase) {
 		}
 		if int(rd.Version) != c.A.Ver {
 			x.viol("roundtrip/read/v2.Reader.Version", c, fmt.Sprintf("Version %d", rd.Version), map[string]any{"mode": "scan"})
+		}
+		// positional reads stop at the end of the payload, whatever follows it in the file
+		if d3, err := rd.DataReader(); err == nil && len(payload) >= 3 {
+			buf := make([]byte, 10)
+			n, rerr := d3.ReadAt(buf, int64(len(payload)-3))
+			if n != 3 || rerr != io.EOF || !bytes.Equal(buf[:3], payload[len(payload)-3:]) {
+				x.viol("roundtrip/read/v2.Reader.DataReader", c, fmt.Sprintf("ReadAt of 10 bytes, 3 before the end of the payload, returns %d bytes (err=%v)", n, rerr), map[string]any{"mode": "scan"})
+			}
+			if n2, rerr2 := d3.ReadAt(buf, int64(len(payload))); n2 != 0 || rerr2 != io.EOF {
+				x.viol("roundtrip/read/v2.Reader.DataReader", c, fmt.Sprintf("ReadAt at the end of the payload returns %d bytes (err=%v)", n2, rerr2), map[string]any{"mode": "scan"})
+			}
 		}
 		// payload readers are independent of each other and of the other calls: take one, call Roots and Inspect on a
 		// fresh Reader, take a second one and read a little from it, then drain the first
